@@ -569,4 +569,79 @@ theorem run_inv (ops : List Op) : ∀ (s : Sw) (r : Sw × List Obs), Inv s → r
     obtain ⟨r1, r2, h1, h2, rfl⟩ := run_cons h
     exact ih r1.1 r2 (step_inv s op r1 i h1) h2
 
+/-! ## Switch device events -/
+
+theorem drun_cons {d : Dev} {op : DOp} {ops : List DOp} {r : Dev × List DObs} (h : drun d (op :: ops) = some r) :
+    ∃ r1 r2, dstep d op = some r1 ∧ drun r1.1 ops = some r2 ∧ r = (r2.1, r1.2 ++ r2.2) := by
+  simp only [drun] at h
+  cases h1 : dstep d op with
+  | none => simp [h1] at h
+  | some r1 =>
+    simp only [h1] at h
+    cases h2 : drun r1.1 ops with
+    | none => simp [h2] at h
+    | some r2 =>
+      simp only [h2] at h
+      injection h with h
+      exact ⟨r1, r2, rfl, h2, h.symm⟩
+
+/-- invariant of the ignore window: an open window is not overdue and was opened by the last post; with no window open
+the last post is the current state (listeners are in sync with the switch) -/
+structure DInv (d : Dev) : Prop where
+  clear_ge : ∀ c, d.clear = some c → d.now ≤ c
+  open_posted : d.clear ≠ none → d.posted = d.opened
+  closed_sync : d.clear = none → d.posted = d.state
+  nowin : d.window = 0 → d.clear = none
+
+theorem dstep_inv (d : Dev) (op : DOp) (r : Dev × List DObs) (i : DInv d) (h : dstep d op = some r) : DInv r.1 := by
+  cases op with
+  | change st =>
+    simp only [dstep] at h
+    split at h
+    · cases h
+    · split at h
+      · rename_i hw0
+        injection h with h; subst h
+        exact ⟨i.clear_ge, fun hn => absurd (i.nowin hw0) hn, fun _ => rfl, i.nowin⟩
+      · rename_i hw0
+        cases hc : d.clear with
+        | some c =>
+          simp only [hc] at h; injection h with h; subst h
+          exact ⟨by intro c' hc'; simp at hc'; subst hc'; exact i.clear_ge c hc, fun _ => i.open_posted (by simp [hc]), by simp,
+                 fun h0 => absurd h0 hw0⟩
+        | none =>
+          simp only [hc] at h; injection h with h; subst h
+          refine ⟨?_, fun _ => rfl, by simp, fun h0 => absurd h0 hw0⟩
+          intro c hc'
+          simp at hc'
+          show d.now ≤ c
+          omega
+  | to t =>
+    simp only [dstep] at h
+    split at h
+    · rename_i hc
+      injection h with h; subst h
+      refine ⟨?_, i.open_posted, i.closed_sync, i.nowin⟩
+      intro c hc'
+      have hc'' : d.clear = some c := hc'
+      have := hc.2; rw [hc''] at this; simpa using this
+    · cases h
+  | pass =>
+    simp only [dstep] at h
+    cases hc : d.clear with
+    | none => simp [hc] at h
+    | some c =>
+      simp only [hc] at h
+      split at h
+      · split at h
+        · rename_i _ he
+          injection h with h; subst h
+          refine ⟨by simp, by simp, ?_, fun _ => rfl⟩
+          intro _
+          show d.posted = d.state
+          rw [i.open_posted (by simp [hc]), he]
+        · injection h with h; subst h
+          exact ⟨by simp, by simp, fun _ => rfl, fun _ => rfl⟩
+      · cases h
+
 end MpfVerif.Switch
